@@ -365,6 +365,10 @@ type AddrCase struct {
 	Port     int    `json:"port"`      // 0 = absent
 	DialForm string `json:"dial_form"` // "" | ip4 | ip4port | ip6port | ip6bare | name | nameport | unix
 	DialPort int    `json:"dial_port"`
+	// DialDown: nothing listens at the dial_addr target; the server is where
+	// the URL points.  Every connection attempt still has to go to the
+	// override, and no query may reach the server.
+	DialDown bool `json:"dial_down,omitempty"`
 }
 
 // ---- C17 (b): upstream authentication ----
